@@ -186,6 +186,21 @@ def monitor_c04(ctx, scn, tv):
 
 
 # ---------------------------------------------------------------------------------------------- C06
+def _behind_pooled_phony(g, sid):
+    seen, work = set(), [sid]
+    while work:
+        x = work.pop()
+        for f in g.all_inputs(g.by_id[x]):
+            p = g.producer.get(f)
+            if p is None or p["id"] in seen:
+                continue
+            seen.add(p["id"])
+            if p["kind"] == "phony" and p["pool"]:
+                return True
+            work.append(p["id"])
+    return False
+
+
 def monitor_c06(ctx, scn, tv):
     step, sc, g = tv.step, tv.sc, tv.graph
     j = step.get("j", 1)
@@ -283,6 +298,11 @@ def monitor_c06(ctx, scn, tv):
                 sid = tv.sid_of[o]
                 if kw is not None and sid not in kw:
                     ctx.count("c06_not_yet_known_wanted")
+                    continue
+                if _behind_pooled_phony(g, sid):
+                    # a phony statement that was put into a pool waits for a slot of that pool like any other statement of
+                    # it (it just holds it for no time): what is behind it is not startable before
+                    ctx.count("c06_behind_pooled_phony")
                     continue
                 ok = True
                 # every transitive prerequisite that runs in this build must have finished: a clean
